@@ -94,7 +94,7 @@ func TestC15Liveness(t *testing.T) {
 		cfg.ElectionMS, cfg.ElectionVoteMS, cfg.ProposeMS, cfg.ProposeVoteMS = tm("tEl"), tm("tElV"), tm("tPr"), tm("tPrV")
 		cfg.PrecommitMS, cfg.PrecommitVoteMS, cfg.CommitMS = tm("tPc"), tm("tPcV"), tm("tCm")
 		cut := rapid.IntRange(1, 400).Draw(rt, "gstStep")
-		res := bftscen.RunOn(rt, bftscen.Options{CutSteps: cut, NoFinish: true, ExtraPartition: true, Families: "F1,F2,F3,F4,F4,F4,F5,F5,F6"}, cfg, mode, g1, g2)
+		res := bftscen.RunOn(rt, bftscen.Options{CutSteps: cut, NoFinish: true, ExtraPartition: true, Families: "F1,F2,F3,F4,F4,F5,F5,F6,F7,F7,F7"}, cfg, mode, g1, g2)
 		s := res.S
 		defer s.Close()
 		for _, l := range res.Classes {
